@@ -342,8 +342,9 @@ func (m *Manager) PatchStableService(c *TrafficRoutingContext) (bool, error) {
 	if len(c.ObjectRef) == 0 {
 		return false, nil
 	}
+	// nothing to patch (and thus nothing to wait for) when no canary service is generated
 	if c.OnlyTrafficRouting || c.DisableGenerateCanaryService {
-		return true, nil
+		return false, nil
 	}
 
 	// fetch stable service
